@@ -118,6 +118,18 @@ func c14Step(x *engine.Exec) []engine.Failure {
 			weightChanged = true
 			x.Cnt.Inc("gov.weight_changed")
 		}
+		// decay configured on an asset that was not decaying (rate 1 or interval 0): intervals count from now on
+		wasOff := a.RewardChangeInterval == 0 || world.Rat(a.RewardChangeRate).Cmp(ratI(1)) == 0
+		isOn := b.RewardChangeInterval > 0 && world.Rat(b.RewardChangeRate).Cmp(ratI(1)) != 0
+		if wasOff && isOn {
+			x.Cnt.Inc("gov.decay_switched_on")
+			if a.RewardChangeInterval > 0 {
+				x.Cnt.Inc("gov.decay_switched_on_from_rate_1_with_interval")
+			}
+			if !b.LastRewardChangeTime.Equal(prev.Time) {
+				out = append(out, fail("decay-clock", "not-restarted-when-decay-configured", "%s: decay switched on at +%s but the decay clock reads +%s: intervals that elapsed before decay was configured would be applied", x.Op.String(), prev.Time.Sub(world.Epoch), b.LastRewardChangeTime.Sub(world.Epoch)))
+			}
+		}
 	}
 	hadPending := false
 	for v := range x.W.Vals {
@@ -157,14 +169,17 @@ func c14Config() world.Config {
 		{Denom: "aaa", Weight: "1", Min: "0", Max: "5", TakeRate: "0", ChangeRate: "0.5", ChangeInterval: 1 * U},
 		{Denom: "bbb", Weight: "2", Min: "1.5", Max: "2", TakeRate: "0", ChangeRate: "0.9", ChangeInterval: 2 * U},
 		{Denom: "ccc", Weight: "1", Min: "1", Max: "1", TakeRate: "0", StartOffset: 4 * U},
+		// decay switched off through rate == 1 while an interval is configured
+		{Denom: "ddd", Weight: "1", Min: "0", Max: "5", TakeRate: "0", ChangeRate: "1", ChangeInterval: 1 * U},
 	}
 	cfg.DelFunds["ccc"] = "1000000000000"
+	cfg.DelFunds["ddd"] = "1000000000000"
 	return cfg
 }
 
 func init() {
 	seed := []world.Op{
-		opDel(0, 0, "aaa", "1000000"), opDel(1, 0, "bbb", "1000000"), opDel(1, 1, "aaa", "500000"), opDel(2, 1, "ccc", "1000000"),
+		opDel(0, 0, "aaa", "1000000"), opDel(1, 0, "bbb", "1000000"), opDel(1, 1, "aaa", "500000"), opDel(2, 1, "ccc", "1000000"), opDel(2, 0, "ddd", "1000000"),
 		opBlock(1),
 	}
 	register(&Property{
@@ -192,6 +207,7 @@ func init() {
 					{"aaa", "1", "0.9,1", "0", "0.5", fmt.Sprint(int64(U))},   // narrow range
 					{"bbb", "1.5", "1.5,2", "0", "1", "0"},                    // decay off + weight change
 					{"ccc", "1", "1,1", "0", "0.9", fmt.Sprint(int64(U))},   // decay configured on a (1,1) range
+					{"ddd", "1", "0,5", "0", "0.5", fmt.Sprint(int64(U))},   // decay switched on for an asset that had rate 1 with an interval
 				} {
 					var iv int64
 					fmt.Sscan(v[5], &iv)
@@ -205,7 +221,7 @@ func init() {
 					Seeds: [][]world.Op{seed}, ClassNames: classNames, Budgets: budgets, MaxDepth: depth,
 					NewRef: func(w *world.World, root *engine.Node) engine.Ref { return newRewRef() },
 					Ops:    ops, Step: c14Step, SeedStep: true,
-					Required: []string{"decay.single_interval", "decay.multi_interval", "decay.sub_interval", "decay.clamped_to_min", "decay.two_assets_same_block", "gov.weight_changed", "weight_change.with_rewards_pending_in_distribution", "claim.with_positive_entitlement", "asset.left_warmup"},
+					Required: []string{"decay.single_interval", "decay.multi_interval", "decay.sub_interval", "decay.clamped_to_min", "decay.two_assets_same_block", "gov.weight_changed", "weight_change.with_rewards_pending_in_distribution", "claim.with_positive_entitlement", "asset.left_warmup", "gov.decay_switched_on_from_rate_1_with_interval"},
 				}
 			}
 			if tier == "thorough" {
